@@ -47,7 +47,8 @@ VARIABLES
   out,       \* [Proc -> "orig"|"tmp"] sys.stdout
   cwd,       \* [Proc -> "orig"|"tmp"] os.getcwd()
   fault,     \* [Proc -> "none"|"codegen"|"cc"|"link"|"marker"] failure this request will meet
-             \* ("marker": writing the content of the ready marker raises, e.g. ENOSPC)
+             \* ("marker": writing the content of the ready marker raises, e.g. ENOSPC;
+             \*  "echo": cffi_verbose is set and printing the build log raises, e.g. BrokenPipeError)
   sawCached, \* [Proc -> BOOLEAN]     the marker was present when the request started
   built,     \* [Proc -> BOOLEAN]     this request ran the C compiler
   prog,      \* [Proc -> BOOLEAN]     (Timely) builder progress seen since the last sleep
@@ -66,7 +67,7 @@ WaiterPc  == {"poll", "sleep", "wload"}
 EndPc     == {"ret", "raise_fail", "raise_timeout"}      \* about to leave compile_forms
 DonePc    == {"idle", "returned", "raised_fail", "raised_timeout", "dead"}
 AllPc     == BuilderPc \cup WaiterPc \cup EndPc \cup DonePc \cup {"trylock"}
-FaultKind == {"none", "codegen", "cc", "link", "marker"}
+FaultKind == {"none", "codegen", "cc", "link", "marker", "echo"}
 
 \* owner: the process whose exclusive create made the present <k>.c ("none" if there is no <k>.c)
 File0 == [c |-> "absent", owner |-> "none", cached |-> FALSE, failed |-> FALSE, obj |-> FALSE,
@@ -179,9 +180,15 @@ LinkEnd(p) ==
   /\ pc[p] = "linking"
   /\ IF fault[p] = "link"
        THEN /\ fs' = fs /\ pc' = [pc EXCEPT ![p] = "frename"] /\ LeaveCompileByException(p)
-       ELSE /\ fs' = FsAfterLinkEnd(key[p]) /\ pc' = [pc EXCEPT ![p] = "mark"]
-            /\ out' = [out EXCEPT ![p] = "orig"] /\ cwd' = [cwd EXCEPT ![p] = "orig"]
-            /\ hand' = hand
+       ELSE IF fault[p] = "echo"
+         THEN \* the build is complete; `print(s)` (cffi_verbose) raises before the marker is looked at: the `finally`
+              \* restores the handlers, stdout and cwd are back already, the caller renames the lock
+              /\ fs' = FsAfterLinkEnd(key[p]) /\ pc' = [pc EXCEPT ![p] = "frename"]
+              /\ out' = [out EXCEPT ![p] = "orig"] /\ cwd' = [cwd EXCEPT ![p] = "orig"]
+              /\ hand' = IF FixedHandlers THEN [hand EXCEPT ![p] = "orig"] ELSE hand
+         ELSE /\ fs' = FsAfterLinkEnd(key[p]) /\ pc' = [pc EXCEPT ![p] = "mark"]
+              /\ out' = [out EXCEPT ![p] = "orig"] /\ cwd' = [cwd EXCEPT ![p] = "orig"]
+              /\ hand' = hand
   /\ Progress(p) /\ Step("LinkEnd", p)
   /\ UNCHANGED <<key, polls, loaded, fault, sawCached, built, compilers, reqs, kills, fails>>
 
